@@ -133,6 +133,14 @@ func (s *muxerSegmenter) writeAV1(
 		paramsChanged = true
 	}
 
+	// skip samples silently until we find a random access one
+	if !track.firstRandomAccessReceived {
+		if !randomAccess {
+			return nil
+		}
+		track.firstRandomAccessReceived = true
+	}
+
 	ps := &fmp4.PartSample{}
 	err := ps.FillAV1(tu)
 	if err != nil {
